@@ -193,7 +193,7 @@ def load_known_findings(prop: str) -> list[dict]:
 
 
 def write_replay(prop: str, violation: dict) -> str:
-	d = os.path.join(ROOT, 'replays', prop)
+	d = os.path.join(os.environ.get('VERIF_REPLAY_DIR') or os.path.join(ROOT, 'replays'), prop)
 	os.makedirs(d, exist_ok=True)
 	body = json.dumps(violation, indent=1, sort_keys=True, default=str)
 	name = hashlib.sha1(body.encode()).hexdigest()[:12] + '.json'
@@ -204,8 +204,9 @@ def write_replay(prop: str, violation: dict) -> str:
 
 
 def write_evidence(prop: str, tier: str, seed: int, level: str, coverage: dict, assumptions: list[str], wall_s: float, violations: int, extra: dict | None = None) -> str:
-	os.makedirs(os.path.join(ROOT, 'evidence'), exist_ok=True)
-	path = os.path.join(ROOT, 'evidence', f'{prop}.json')
+	edir = os.environ.get('VERIF_EVIDENCE_DIR') or os.path.join(ROOT, 'evidence')  # (the seeded-change runner points this elsewhere: evidence is about /repo)
+	os.makedirs(edir, exist_ok=True)
+	path = os.path.join(edir, f'{prop}.json')
 	doc = {
 		'property_id': prop,
 		'tier': tier,
